@@ -183,6 +183,8 @@ def gen_cases(tier, seed):
     # Random
     for (m, n) in [(1, 2), (2, 2), (3, 3), (4, 3), (5, 4)]:
         add("random", "dense", m, n, 2 if not th else 8, size=1)
+    for k_ in range(3):
+        cases.append(dict(kind="native", src="native", m=0, n=0, lo=0, hi=0, seed=seed, k=k_))
     only = os.environ.get("VERIF_C18_ONLY")  # development aid (mutant triage): restrict to some kinds; never set in real runs
     if only:
         cases = [c for c in cases if c["kind"] in only.split(",")]
@@ -669,7 +671,65 @@ def _run_cagrad(case, acc):
                 acc.outcomes.add(digest(["cagrad", c, np.round(xd / ssc, 6).tolist()]))
 
 
-_RUN = dict(pcgrad=_run_pcgrad, pcgrad4=_run_pcgrad, graddrop=_run_graddrop, random=_run_random, mgda=_run_mgda, cagrad=_run_cagrad)
+def _run_native(case, acc):
+    """GradDrop and PCGrad under torch.manual_seed, WITHOUT replayed draws (added after a seeded change - GradDrop drawing one sample per
+    entry instead of one per column - ended as a harness fault of the replay-based family): whatever is drawn, every coordinate of
+    GradDrop's output must be one of the candidates of its column (positive entries kept, negative entries kept, or - at a tie /
+    on an all-zero column - only the leaked shares), and PCGrad's output must be one of the finitely many sequential projections."""
+    import torch
+    from torchjd.aggregation import GradDrop, PCGrad
+
+    mats = [np.array([[1.0, -2.0, 3.0], [2.0, 1.0, -1.0], [-3.0, 4.0, 2.0]]), np.array([[1.0, -1.0], [2.0, 3.0], [-0.5, -2.0], [4.0, 0.5]]),
+            np.array([[-1.0, 2.0, 0.5, 1.0], [3.0, -1.0, 2.0, -2.0]])]
+    J = mats[case["k"]]
+    m, n = J.shape
+    s = A.sigma_max(J)
+    leaks = [None, np.array([(i + 1.0) / (m + 1) for i in range(m)]), np.ones(m) * 0.5]
+    for li, leak in enumerate(leaks):
+        lk = np.zeros(m) if leak is None else leak
+        cand = []
+        for j in range(n):
+            col = J[:, j]
+            pos = float(sum((lk[i] + (1 - lk[i]) * (col[i] > 0)) * col[i] for i in range(m)))
+            neg = float(sum((lk[i] + (1 - lk[i]) * (col[i] < 0)) * col[i] for i in range(m)))
+            none = float(sum(lk[i] * col[i] for i in range(m)))
+            cand.append((pos, neg, none))
+        agg = GradDrop(leak=None if leak is None else torch.tensor(leak, dtype=torch.float64))
+        seen = set()
+        for z in range(16):
+            torch.manual_seed(z)
+            acc.execs += 1
+            x = agg(torch.tensor(J, dtype=torch.float64)).numpy()
+            for j in range(n):
+                e = min(abs(x[j] - c) for c in cand[j]) / (1e-12 * s * m)
+                acc.mg("graddrop-native-structure", e)
+                if not (e <= 1):
+                    acc.add_viol("graddrop-coordinate-is-not-a-one-sign-sum" + ("" if leak is None else ":leak"),
+                                 f"J={J.tolist()} leak={None if leak is None else leak.tolist()} manual_seed({z}): x[{j}]={x[j]} candidates (positive kept, negative kept, "
+                                 f"none kept)={cand[j]}", cls=f"graddrop-native:{li}")
+                    break
+            seen.add(tuple(np.round(x, 9).tolist()))
+        if len(seen) >= 2:
+            acc.nontriv += 1
+        for o in seen:
+            acc.outcomes.add(digest(["graddrop-native", li, o]))
+    if m <= 3:
+        import itertools as it
+        perms = list(it.permutations(range(m)))
+        cands = [R.pcgrad_ref(J, list(sched)) for sched in it.product(perms, repeat=m)]
+        agg = PCGrad()
+        for z in range(16):
+            torch.manual_seed(z)
+            acc.execs += 1
+            x = agg(torch.tensor(J, dtype=torch.float64)).numpy()
+            e = min(float(np.abs(x - c).max()) for c in cands) / (1e-12 * s * m)
+            acc.mg("pcgrad-native-candidate-set", e)
+            if not (e <= 1):
+                acc.add_viol("pcgrad-not-in-the-candidate-set:native-seed", f"J={J.tolist()} manual_seed({z}): x={x.tolist()} is none of the {len(cands)} sequential projections")
+                break
+
+
+_RUN = dict(pcgrad=_run_pcgrad, pcgrad4=_run_pcgrad, graddrop=_run_graddrop, random=_run_random, mgda=_run_mgda, cagrad=_run_cagrad, native=_run_native)
 
 
 def run_case(case):
